@@ -62,7 +62,14 @@ func (p *C16) Gen(seed uint64, i int, tier string) *scen.Scenario {
 	default:
 		startS = -62135596800 + 86400 + int64(r.U64()%uint64(253402300799+62135596800-2*86400))
 	}
-	sc.World.Clock = scen.Clock{StartS: startS, StartNs: int64(r.Intn(1000000000)), TickNs: scen.Pick(r, []int64{1, 1, 1000, 1000000}),
+	startNs := int64(r.Intn(1000000000))
+	switch r.Intn(6) {
+	case 0:
+		startNs = 0
+	case 1:
+		startNs = int64(r.Intn(1000)) * 1000000 // whole milliseconds
+	}
+	sc.World.Clock = scen.Clock{StartS: startS, StartNs: startNs, TickNs: scen.Pick(r, []int64{1, 1, 1000, 1000000}),
 		MinStep: 1, MaxStep: 5000000, Zone: scen.Pick(r, c16Zones), Local: scen.Pick(r, []string{"", "", "+02:00", "America/New_York"})}
 
 	// flags: every subset of date/time/microseconds, local-time on/off
@@ -117,6 +124,14 @@ func (p *C16) Gen(seed uint64, i int, tier string) *scen.Scenario {
 		}
 		if r.Chance(1, 3) {
 			ts := &scen.TimeSpec{S: -62135596800 + 86400 + int64(r.U64()%uint64(253402300799+62135596800-2*86400)), Ns: int64(r.Intn(1000000000)), Zone: scen.Pick(r, c16Zones)}
+			switch r.Intn(8) {
+			case 0:
+				ts.Ns = 0
+			case 1:
+				ts.S = -62135596800 + 86400 + int64(r.Intn(900*365*86400)) // years 0001..0900
+			case 2:
+				ts.Ns = int64(r.Intn(1000)) * 1000
+			}
 			sc.Setup = append(sc.Setup, scen.Op{Op: "write_thru", L: 1, Lvl: 4, T: ts, Msg: "m" + t, Tok: t, Probe: true})
 		} else {
 			sc.Setup = append(sc.Setup, scen.Op{Op: "log", L: 1, Entry: scen.Pick(r, []string{"Info", "Warn", "InfoContext", "LogAttrs", "Infof", "Print"}), Lvl: 4, Msg: "m" + t, Tok: t, Probe: true})
